@@ -112,6 +112,8 @@ structure J where
   lastS : Nat := 0
   lastE : Nat := 0
   exact : Bool := true          -- the side conditions of the exact-framing clause have held so far
+  aborted : Bool := false       -- the current read was left through an error raised by a callback
+  destOK : Bool := false        -- the case scripts a callback that destructs the user: `closed` is expected
   bad : List String := []       -- newest first
 
 def J.fail (j : J) (what : String) : J := { j with bad := what :: j.bad }
@@ -138,12 +140,18 @@ def judgeStep (p : Port) (j : J) (e : Ev) : J :=
     match p with
     | .ascii =>
       if j.exact ∧ asciiMaxPiece 0 j.rx + asciiReserve + 1 ≤ MAXT then
-        (if j.delivered == asciiLines j.rx then j else j.fail "ascii-lines delivered differ from the stream's lines")
+        -- every complete line exactly once, in order; after a read that ran to its end nothing is left over
+        (if j.aborted then
+           (if isPrefix j.delivered (asciiLines j.rx) then j
+            else j.fail "ascii-lines delivered are not a prefix of the stream's lines (after a failed callback)")
+         else if j.delivered == asciiLines j.rx then j
+         else j.fail "ascii-lines delivered differ from the stream's lines")
       else { j with exact := false }
     | .binary =>
       if j.delivered.flatten == j.rx ∧ j.delivered.all (fun l => !l.isEmpty) then j
       else j.fail "binary delivered bytes differ from the stream"
     | _ => j
+  | .cberr => { j with aborted := true }
   | .ask n =>
     let j := if n + 1 ≤ MAXT then j else j.fail s!"ask {n} exceeds the input buffer"
     match p with
@@ -157,7 +165,7 @@ def judgeStep (p : Port) (j : J) (e : Ev) : J :=
           else j
         { j with exact := false }
     | _ => j
-  | .rx b => { j with rx := j.rx ++ b }
+  | .rx b => { j with rx := j.rx ++ b, aborted := false }     -- a read that got data runs the delivery loop again
   | .cl b =>
     -- console blob: if it does not fit behind text_end it is dropped as a whole - unless only an unfinished
     -- (over-long) line is pending: then that line is discarded first
@@ -178,10 +186,12 @@ def judgeStep (p : Port) (j : J) (e : Ev) : J :=
     if j.exact ∧ (p == .telnet ∨ p == .console) then
       (if j.delivered == expected p j.rx then j else j.fail "nocmd but the stream holds further complete lines")
     else j
-  | .closed => { j.fail "closed: the driver dropped the connection although the client did not close it" with exact := false }
+  | .closed =>
+    if j.destOK then { j with exact := false }
+    else { j.fail "closed: the driver dropped the connection although the client did not close it" with exact := false }
   | _ => j
 
-def judgeEv (p : Port) (evs : List Ev) : List String :=
-  ((evs.foldl (judgeStep p) {}).bad).reverse
+def judgeEv (p : Port) (evs : List Ev) (destOK : Bool := false) : List String :=
+  ((evs.foldl (judgeStep p) { destOK := destOK }).bad).reverse
 
 end NV.C13
